@@ -183,14 +183,14 @@ def hrTable (F : Fns α) (c : HRCtx α) : List (α × α) :=
 
 /-! ### LogWarperComponent (output_warpers.py:380-415) -/
 
-/-- one entry; `mn < mx` fails only when all finite labels are equal, and then the code
-computes `0/0 = nan` for every finite label -/
+/-- one entry; `mn < mx` fails only when all finite labels are equal: every label is then the best
+one, `norm_diff = 0`, image `0.5` (the pinned commit computed `0/0 = nan` there; repaired in round i) -/
 def logPt (F : Fns α) (offset mn mx : α) : Option α → Option α
   | none => none
   | some x =>
     if mn < mx then
       some (half - F.log1p ((mx - x) / (mx - mn) * (offset - one)) / F.log offset)
-    else none
+    else some half
 
 def logWarp (F : Fns α) (offset : α) (l : List (Option α)) : List (Option α) :=
   match lmin (fins l), lmax (fins l) with
@@ -294,13 +294,26 @@ def normalize (lo hi : α) (l : List (Option α)) : List (Option α) :=
   | some mn, some mx => l.map (normPt lo hi mn mx)
   | _, _ => l
 
-/-- `use_rank=False`.  `np.min` propagates NaN: one NaN label makes every output NaN, and so
-does a constant array (`0/0`). -/
+/-- `use_rank=False` (repaired in round i: `np.nanmin` / `np.nanmax`, so a missing entry stays missing
+and the observed values are normalised among themselves; constant labels sit at the middle of the unit
+interval instead of `0/0`). -/
 def gaussPt (F : Fns α) (mn mx : α) : Option α → Option α
   | none => none
   | some x => some (F.gauss ((x - mn) / (mx - mn)))
 
+def gaussMid (F : Fns α) : Option α → Option α
+  | none => none
+  | some _ => some (F.gauss half)
+
 def transformToGaussian (F : Fns α) (l : List (Option α)) : List (Option α) :=
+  match lmin (fins l), lmax (fins l) with
+  | some mn, some mx =>
+    if mn < mx then l.map (gaussPt F mn mx) else l.map (gaussMid F)
+  | _, _ => l
+
+/-- the pinned commit: `np.min` propagates NaN (one missing label makes every output NaN) and a constant
+array is `0/0` -/
+def transformToGaussianLegacy (F : Fns α) (l : List (Option α)) : List (Option α) :=
   match lmin (fins l), lmax (fins l) with
   | some mn, some mx =>
     if l.any Option.isNone then l.map fun _ => none
